@@ -6,10 +6,14 @@ Open Scope string_scope.
 
 Record case : Type := { cargs : ctor_args; ops : list (pstr * aval) }.
 
+(* the pseudo-attribute "@json": the policy is serialised (to_json) at this point of the history *)
+Definition n_json : pstr := [64; 106; 115; 111; 110]%N.
+
 Fixpoint run_ops (s : pstate) (ops : list (pstr * aval)) : list string :=
   match ops with
   | [] => []
   | (n, v) :: r =>
+      if pstr_eqb n n_json then ("ok " ++ show_pstate (data_of s)) :: run_ops (data_of s) r else
       match setattr s n v with
       | Ok s' => ("ok " ++ show_pstate s') :: run_ops s' r
       | Raise e => (show_exn e ++ " " ++ show_pstate s) :: run_ops s r
